@@ -479,6 +479,21 @@ def compare_call(S, scn, ci, c, m):
                         # entries may overlap; a value inside a zero-weight entry is excluded, so the request is infeasible
                         excluded = any(_zero_covers(wd) for wd in mine[0]["weights"]) or \
                             any(_iv(wd["w"]) is None for wd in mine[0]["weights"])
+                        # the walk never selects an entry of weight zero (C15.zero_weight_never): the requested value lies in
+                        # some entry of positive weight
+                        def _pos_covers(wd):
+                            wv = _iv(wd["w"])
+                            if wv is None:
+                                return True        # weight given by a field: not judged here
+                            if wv <= 0:
+                                return False
+                            if "single" in wd:
+                                return _iv(wd["single"]) is None or (_iv(wd["single"]) - req_v) % (1 << w_) == 0
+                            return _iv(wd["lo"]) is None or _iv(wd["hi"]) is None or _iv(wd["lo"]) <= req_v <= _iv(wd["hi"])
+                        if not any(_pos_covers(wd) for wd in mine[0]["weights"]):
+                            of("dist-request-outside-every-positive-weight-entry", {"field": fname, "requested": req_v,
+                                                                                    "weights": mine[0]["weights"]},
+                               "the weighted draw selects an entry of non-zero weight and a value inside it")
                         if not excluded and (req_v - got) % (1 << w_) != 0:
                             of("dist-free-field-did-not-take-drawn-value", {"field": fname, "requested": int(mm.group(1)), "returned": got},
                                "the drawn value is returned when nothing else constrains the field")
